@@ -71,7 +71,9 @@ func (e *Engine) nondet(st *State, name string, w int) *Term {
 	st.nondetN[name] = k + 1
 	full := fmt.Sprintf("%s#%d", name, k)
 	if e.pinned != nil {
-		return e.ts.constOf(w, e.pinned[full]&maskSort(w))
+		if v, ok := e.pinned[full]; ok || !e.pinPartial {
+			return e.ts.constOf(w, v&maskSort(w))
+		}
 	}
 	return e.ts.Var(full, w)
 }
@@ -140,7 +142,7 @@ func (e *Engine) intrinsic(st *State, fr *Frame, fn *ssa.Function, args []Value)
 		nf.onReturn = func(st *State, _ Value) { e.deliver(st, e.ts.False) }
 		return nil, true
 	case "vsymbolic":
-		return e.ts.Bool(e.pinned == nil), true
+		return e.ts.True, true
 	}
 	return nil, false
 }
@@ -394,42 +396,52 @@ func (e *Engine) shaOf(st *State, in []*Term) []*Term {
 	return out
 }
 
-func (e *Engine) shaRecord(st *State, in, out []*Term, constrain bool) {
+func allConst(ts []*Term) bool {
+	for _, t := range ts {
+		if !t.IsConst() {
+			return false
+		}
+	}
+	return true
+}
+
+// shaRecord remembers (in, out) and constrains it against every earlier record where at least
+// one of the two digests is symbolic: equal inputs <=> equal outputs (function + injectivity).
+func (e *Engine) shaRecord(st *State, in, out []*Term, symbolic bool) {
 	recs, _ := st.ghost["sha"].([]shaRec)
-	if !constrain {
-		// concrete: only record (constraints are added when a symbolic digest is created)
-		for _, r := range recs {
-			if len(r.in) == len(in) {
-				same := true
-				for i := range in {
-					if r.in[i] != in[i] {
-						same = false
-						break
-					}
-				}
-				if same {
-					return
-				}
-			}
-		}
-	} else {
-		for _, r := range recs {
-			var outEq []*Term
-			for i := range out {
-				outEq = append(outEq, e.ts.Eq(out[i], r.out[i]))
-			}
-			oe := e.ts.And(outEq...)
-			if len(r.in) != len(in) {
-				e.addPC(st, e.ts.Not(oe))
-				continue
-			}
-			var inEq []*Term
+	for _, r := range recs {
+		if len(r.in) == len(in) {
+			same := true
 			for i := range in {
-				inEq = append(inEq, e.ts.Eq(in[i], r.in[i]))
+				if r.in[i] != in[i] {
+					same = false
+					break
+				}
 			}
-			ie := e.ts.And(inEq...)
-			e.addPC(st, e.ts.Eq(ie, oe))
+			if same {
+				if !symbolic {
+					return // already recorded
+				}
+			}
 		}
+		if !symbolic && allConst(r.out) {
+			continue // two concrete digests: nothing to state
+		}
+		var outEq []*Term
+		for i := range out {
+			outEq = append(outEq, e.ts.Eq(out[i], r.out[i]))
+		}
+		oe := e.ts.And(outEq...)
+		if len(r.in) != len(in) {
+			e.addPC(st, e.ts.Not(oe))
+			continue
+		}
+		var inEq []*Term
+		for i := range in {
+			inEq = append(inEq, e.ts.Eq(in[i], r.in[i]))
+		}
+		ie := e.ts.And(inEq...)
+		e.addPC(st, e.ts.Eq(ie, oe))
 	}
 	st.ghost["sha"] = append(append([]shaRec(nil), recs...), shaRec{in, out})
 }
